@@ -235,8 +235,9 @@ class BaseFileLock(abc.ABC):
             except:  # noqa
                 _logger.exception("Failed to release lock %s on %s", lid, fn)
             else:
-                self._lock_counter = 0
                 _logger.info('Lock %s released on %s', lid, fn)
+            # The descriptor is gone either way, so is every nested level
+            self._lock_counter = 0
 
         try:
             # A forced release gives up every level of a reentrant lock
